@@ -158,6 +158,8 @@ func vfFSExists(name string) bool {
 
 func vfFSRemove(name string) { _ = os.Remove(name) }
 
+func vfMkdir(name string) { _ = os.Mkdir(name, 0755) }
+
 // crash images exist only under the executor
 func vfFSMutations() int             { return 0 }
 func vfFSMutationName(i int) string  { return "" }
